@@ -122,12 +122,18 @@ Definition latex_wf (l : list ltok) : Prop := Forall (fun t => ltok_ok t = true)
 Definition latex_wf_b (l : list ltok) : bool := forallb ltok_ok l && chk lkind_eqb [] (List.map lclass l).
 
 (* guard of the LaTeX theorem: names contain none of \ { } ; no FiniteSet node (its rule writes
-   "\left{" ... "\right}", see C44_latex_balanced_refuted) *)
+   "\left{" ... "\right}", see C44_latex_balanced_refuted); the end points of an Interval are numbers
+   (the class stores RCP<const Number>; they are printed with operator<<, i.e. by StrPrinter) *)
 Definition tex_name_ok (s : list N) : bool :=
   forallb (fun c => negb ((c =? 92) || (c =? 123) || (c =? 125))) s.
 Definition latex_node_ok (e : expr) : bool :=
   match node_name e with Some nm => tex_name_ok nm | None => true end
-  && match e with EFN code _ => negb (code =? TC_FiniteSet) | _ => true end.
+  && match e with
+     | EFN code _ => negb (code =? TC_FiniteSet)
+     | EInterval (ENum _) (ENum _) _ _ => true
+     | EInterval _ _ _ _ => false
+     | _ => true
+     end.
 Definition latex_guard (e : expr) : bool := all_nodes latex_node_ok e.
 (* the part of the guard that concerns names only (evidence: why a tree is outside the guard) *)
 Definition latex_names_ok (e : expr) : bool :=
